@@ -60,6 +60,14 @@ func runC10(c *eng.Ctx) {
 	ruleCommittedReaderCapsOnlyPastTheEnd(c)
 	c.Rule("R10.2", "K1")
 	ruleBeginningOfLogOnlyAtTheFirstSegment(c)
+	c.Rule("R10.3", "K1")
+	ruleClientStopOffsetIsNeverTheSentinel(c)
+	c.Rule("R10.8", "K1")
+	ruleTimestampPositionsFollowTheDirection(c)
+	c.Rule("R03.4", "K1")
+	ruleReplacedWatermarkSegmentReinitialises(c)
+	c.Rule("R03.7", "K1")
+	ruleReadonlyVerdictIsRechecked(c)
 	c.Rule("R09.9", "K5")
 	ruleReadPathSkipsDeletedSegments(c)
 	p := c.P
@@ -91,8 +99,17 @@ func runC10(c *eng.Ctx) {
 		// negative start clamps to 0
 		neg := eng.CmpEdges(fn, eng.AnyV, eng.IntConst(0), eng.LT)
 		c.Check(len(neg) > 0, "negative start offset clamps to 0", p.Pos(fn.Pos()), "startOffset < 0 ⇒ 0", "getStartOffset no longer clamps a negative start (empty log) to 0")
-		ts := eng.CallsIn(fn, cl+"CommitLog.EarliestOffsetAfterTimestamp")
-		c.Check(len(ts) == 1 && eng.LoadNamed("StartTimestamp", eng.Param("req"))(eng.AllArgs(ts[0].Common())[1]), "timestamp start looks up req.StartTimestamp", p.Pos(fn.Pos()), "EarliestOffsetAfterTimestamp(req.StartTimestamp)", "the timestamp start position is not resolved from req.StartTimestamp")
+		ts := eng.CallsIn(fn, cl+"CommitLog.EarliestOffsetAfterTimestamp", "server.partition.getReverseStartOffset")
+		okTS := len(ts) >= 1
+		for _, t := range ts {
+			a := eng.AllArgs(t.Common())[1]
+			stamp := eng.LoadNamed("StartTimestamp", eng.Param("req"))
+			// (the reverse lookup, when inlined, searches timestamp + 1 and steps back)
+			if !stamp(a) && !eng.Bin(token.ADD, stamp, eng.IntConst(1))(eng.Strip(a)) {
+				okTS = false
+			}
+		}
+		c.Check(okTS, "timestamp start looks up req.StartTimestamp", p.Pos(fn.Pos()), "EarliestOffsetAfterTimestamp(req.StartTimestamp)", "the timestamp start position is not resolved from req.StartTimestamp")
 	}
 	if fn := c.Fn("server.(*partition).getStopOffset"); fn != nil {
 		tag := eng.LoadNamed("StopPosition", eng.Param("req"))
